@@ -803,6 +803,30 @@ pub fn conv_probe_utc(
             tai.to_gregorian_tai()
         ));
     }
+    // ...and they are the fields of the two counts: the UTC door (`to_gregorian_utc`, from either
+    // epoch) shows what the calendar code shows for the UTC count, the TAI door what it shows for
+    // the UTC count plus the offset in force. Both sides go through hifitime's own calendar
+    // arithmetic (a plain TAI-scale epoch carrying the count), so that only the UTC/TAI plumbing is
+    // judged here, not the calendar (which has defects of its own: DESIGN.md section 7).
+    if calendar_range && got == want {
+        let plain_utc_count = tai_epoch_ns(u).to_gregorian_tai();
+        let plain_tai_count = tai_epoch_ns(u + want).to_gregorian_tai();
+        if e.to_gregorian_utc() != plain_utc_count || tai.to_gregorian_utc() != plain_utc_count {
+            return Err(format!(
+                "UTC count {u} ns: to_gregorian_utc gives {:?} (from the UTC epoch) / {:?} (from its TAI conversion); the calendar fields of that count are {plain_utc_count:?}",
+                e.to_gregorian_utc(),
+                tai.to_gregorian_utc()
+            ));
+        }
+        if e.to_gregorian_tai() != plain_tai_count || tai.to_gregorian_tai() != plain_tai_count {
+            return Err(format!(
+                "UTC count {u} ns: to_gregorian_tai gives {:?} / {:?}; the calendar fields of the TAI count {} ns are {plain_tai_count:?}",
+                e.to_gregorian_tai(),
+                tai.to_gregorian_tai(),
+                u + want
+            ));
+        }
+    }
     // Float views of the same conversion (1 us tolerance: they are views, not the subject).
     let tai_s = tai_ns as f64 / 1e9;
     for (name, v) in [
